@@ -240,6 +240,28 @@ theorem rewardExec_config (r r' : RewardSt) (self : Addr) (tok dsp : Res Addr) (
     simp only [rewardExec] at hx <;> exc_norm at hx <;> exc_split at hx <;>
       first | exact ⟨rfl, rfl, rfl⟩ | (simp only [RewardSt.setHolder]; exact ⟨rfl, rfl, rfl⟩)
 
+/-- … and so do its reward denom and its swap settings -/
+theorem rewardExec_config2 (r r' : RewardSt) (self : Addr) (tok dsp : Res Addr) (bal : Denom → Nat)
+    (sender : Addr) (m : RewMsg) (ms : List Msg)
+    (hx : rewardExec r self tok dsp bal sender m = .ok (r', ms)) :
+    (r'.rewardDenom = r.rewardDenom ∧ r'.swapDenoms = r.swapDenoms ∧ r'.swapContract = r.swapContract) ∨
+    sender = r.owner := by
+  cases m with
+  | updateConfig hub denom swap =>
+    simp only [rewardExec] at hx
+    split at hx
+    · cases hx
+    · rename_i hs; exact Or.inr (Classical.not_not.mp hs)
+  | updateSwapDenom d add =>
+    simp only [rewardExec] at hx
+    split at hx
+    · cases hx
+    · rename_i hs; exact Or.inr (Classical.not_not.mp hs)
+  | _ =>
+    left
+    simp only [rewardExec] at hx <;> exc_norm at hx <;> exc_split at hx <;>
+      first | exact ⟨rfl, rfl, rfl⟩ | (simp only [RewardSt.setHolder]; exact ⟨rfl, rfl, rfl⟩)
+
 /-- a message handled while the wiring is in place, sent by anyone who is none of the three owners or
     nominees, leaves the wiring in place -/
 theorem handle_wired (s s' : Sys) (m : Msg) (ms : List Msg) (w : Wired s) (hwf : s.bsei.WF)
@@ -269,7 +291,7 @@ theorem handle_wired (s s' : Sys) (m : Msg) (ms : List Msg) (w : Wired s) (hwf :
       by rw [r]; exact w.rwHub, by rw [h]; exact w.hubTok, by rw [h]; exact w.hubOwner,
       by rw [h]; exact w.hubNominee, by rw [d]; exact w.dispOwner, by rw [d]; exact w.dispNominee,
       by rw [r]; exact w.rwOwner, by rw [r]; exact w.rwNominee⟩
-  | reward s1 sender funds rm heq h1 hx' h b t d g =>
+  | reward s1 sender funds rm heq h1 _ _ hx' h b t d g =>
     have hs := hsender _ _ _ _ heq
     rcases rewardExec_config _ _ _ _ _ _ _ _ _ hx' with c | c | c
     · exact ⟨by rw [b]; exact w.tokHub, by rw [h]; exact w.hubDisp, by rw [d]; exact w.dispRw,
